@@ -48,6 +48,8 @@ def _percent(self, other):
         conv = mt.group(2)
         if conv == "s":
             pieces.append(a if isinstance(a, (str, AnySymbolicStr)) else str(a))
+        elif conv in "di" and isinstance(a, int) and not isinstance(a, bool):
+            pieces.append(str(a))
         else:
             ra = realize(a)
             with NoTracing():
@@ -118,6 +120,39 @@ def _wrap_str_method(name):
     return meth, patched
 
 
+def _str_patch(*a):
+    with NoTracing():
+        one = len(a) == 1
+        if one:
+            x = a[0]
+            if isinstance(x, AnySymbolicStr):
+                return x
+            is_symint = isinstance(x, _bl.SymbolicInt) and not isinstance(x, _bl.SymbolicBool)
+            if is_symint:
+                from .arrstr import IntStr
+
+                return IntStr(x.var)
+    if one:
+        return _bl.invoke_dunder(x, "__str__")
+    ra = tuple(deep_realize(v) for v in a)
+    return str(*ra)  # from this frame: native
+
+
+def _int_patch(val=0, *rest, **kw):
+    with NoTracing():
+        from .arrstr import ArrStr, IntStr
+
+        plain = not rest and not kw
+        if plain and isinstance(val, IntStr) and val.__dict__["_mat"] is None:
+            return val.int_value()
+        if isinstance(val, _bl.SymbolicInt) and plain:
+            return val
+    val = deep_realize(val)
+    rest = tuple(deep_realize(v) for v in rest)
+    kw = {k: deep_realize(v) for k, v in kw.items()}
+    return int(val, *rest, **kw)  # from this frame: native
+
+
 _done = False
 
 
@@ -129,6 +164,8 @@ def install():
 
     _core._PATCH_REGISTRATIONS[str.__mod__] = _percent
     _core._PATCH_REGISTRATIONS[format] = _format
+    _core._PATCH_REGISTRATIONS[str] = _str_patch
+    _core._PATCH_REGISTRATIONS[int] = _int_patch
     for name in ("startswith", "endswith", "__contains__", "replace", "split", "find", "partition"):
         meth, patched = _wrap_str_method(name)
         _core._PATCH_REGISTRATIONS[meth] = patched
